@@ -14,6 +14,13 @@
 // (readiness queries for names that only exist as mapping targets: a fresh table must probe for them).
 // The writer iterates the mapping table in Go map order; with more than one entry the operation is repeated on
 // fresh writers and every distinct outcome becomes one event.
+//
+// History plans (steps "upd" / "hmap", WriterMap.tla HSpec) run on ONE live writer: "upd" hands the listed entries to
+// UpdateNameMappings (what ReplicateEntity.UpdateMapping does when a further task starts), "hmap" sends an operation
+// of the kind on (source database, collection) stamped later than everything before it.  Events: "upd" (the entries
+// handed over), "hmap" (the downstream calls), finally "end" (alias queries for databases that only exist as mapping
+// targets).  When the table ever holds more than one entry for a source database the whole history is repeated on
+// fresh writers; every distinct run is appended after a "reset" event.
 package main
 
 import (
@@ -56,6 +63,10 @@ func mapping(shape, sdb string) map[string]string {
 		return map[string]string{"zzz.c1": "tdb.c2", n + ".c9": "tdb.c8"}
 	case "both":
 		return map[string]string{n + ".c1": "tdb.c2", n + ".*": "wdb.*"}
+	case "chain":
+		return map[string]string{n + ".*": "mid.*", "mid.*": "tdb.*"}
+	case "swap":
+		return map[string]string{n + ".c1": n + ".c2", n + ".c2": n + ".c1"}
 	}
 	fmt.Fprintln(os.Stderr, "unknown shape", shape)
 	os.Exit(3)
@@ -104,12 +115,10 @@ func isDML(kind string) bool {
 
 func probed(cs []wfake1.Call) bool { return len(cs) > 0 }
 
-func once(kind, sdb, shape string, fail bool) hx.Event {
-	ctx := context.Background()
-	f := wfake1.New(false)
-	m := mapping(shape, sdb)
-	w := newWriter(f, m)
-	f.CurT = int64(T)
+// doOp sends one operation through the writer's real entry point and returns its outcome and the downstream calls
+func doOp(ctx context.Context, f *wfake1.Fake, w *writer.ChannelWriter, kind, sdb, collName string, fail bool, ts uint64) (bool, string, []map[string]interface{}) {
+	f.CurT = int64(ts)
+	f.Msgs = nil
 	if fail {
 		f.FailAPI[ownAPI[kind]] = true
 	}
@@ -118,13 +127,13 @@ func once(kind, sdb, shape string, fail bool) hx.Event {
 	dmlDB, dmlColl := "", ""
 	switch {
 	case kind == "waitDatabase":
-		state = stateName(w.WaitDatabaseReady(ctx, sdb, T, COLL))
+		state = stateName(w.WaitDatabaseReady(ctx, sdb, ts, collName))
 	case kind == "waitCollection":
-		state = stateName(w.WaitCollectionReady(ctx, COLL, sdb, T))
+		state = stateName(w.WaitCollectionReady(ctx, collName, sdb, ts))
 	case kind == "waitPartition":
-		state = stateName(w.WaitPartitionReady(ctx, COLL, P1, sdb, T))
+		state = stateName(w.WaitPartitionReady(ctx, collName, P1, sdb, ts))
 	case isDML(kind):
-		_, _, err := w.HandleReplicateMessage(ctx, "tgt-ch", wfake1.DMLPack(wfake1.DMLMsg(kind, sdb, COLL, P1, T), T))
+		_, _, err := w.HandleReplicateMessage(ctx, "tgt-ch", wfake1.DMLPack(wfake1.DMLMsg(kind, sdb, collName, P1, ts), ts))
 		ok = err == nil
 		if len(f.Msgs) > 0 {
 			var derr error
@@ -136,13 +145,13 @@ func once(kind, sdb, shape string, fail bool) hx.Event {
 		}
 	default:
 		if _, isEv := wfake1.EventKinds[kind]; isEv {
-			ok = w.HandleReplicateAPIEvent(ctx, wfake1.Event(kind, sdb, COLL, P1, T)) == nil
+			ok = w.HandleReplicateAPIEvent(ctx, wfake1.Event(kind, sdb, collName, P1, ts)) == nil
 		} else {
-			coll := COLL
+			coll := collName
 			if kind == "createDatabase" || kind == "dropDatabase" || kind == "alterDatabase" {
 				coll = ""
 			}
-			_, err := w.HandleOpMessagePack(ctx, wfake1.OpPack(wfake1.OpMsg(kind, sdb, coll, []string{P1, P2}, T), T))
+			_, err := w.HandleOpMessagePack(ctx, wfake1.OpPack(wfake1.OpMsg(kind, sdb, coll, []string{P1, P2}, ts), ts))
 			ok = err == nil
 		}
 	}
@@ -153,6 +162,15 @@ func once(kind, sdb, shape string, fail bool) hx.Event {
 			c["indb"], c["coll"] = dmlDB, dmlColl
 		}
 	}
+	return ok, state, calls
+}
+
+func once(kind, sdb, shape string, fail bool) hx.Event {
+	ctx := context.Background()
+	f := wfake1.New(false)
+	m := mapping(shape, sdb)
+	w := newWriter(f, m)
+	ok, state, calls := doOp(ctx, f, w, kind, sdb, COLL, fail, T)
 
 	// recheck: what the bookkeeping says under the source names
 	recheck, recheckProbed := "", false
@@ -216,7 +234,128 @@ func once(kind, sdb, shape string, fail bool) hx.Event {
 		"calls": calls, "recheck": recheck, "recheckProbed": recheckProbed, "alias": alias, "mapping": ms}
 }
 
+// entriesOf: the entries of an "upd" step as handed to UpdateNameMappings and as logged
+func entriesOf(st map[string]interface{}) (map[string]string, []map[string]interface{}) {
+	m := map[string]string{}
+	logged := []map[string]interface{}{}
+	for _, e := range hx.ML(st, "entries") {
+		sd, sc, td, tc := hx.S(e, "sdb"), hx.S(e, "scoll"), hx.S(e, "tdb"), hx.S(e, "tcoll")
+		m[sd+"."+sc] = td + "." + tc
+		logged = append(logged, map[string]interface{}{"sdb": sd, "scoll": sc, "tdb": td, "tcoll": tc})
+	}
+	return m, logged
+}
+
+// histOnce replays a history on one fresh writer
+func histOnce(steps []map[string]interface{}) []hx.Event {
+	ctx := context.Background()
+	f := wfake1.New(false)
+	w := newWriter(f, map[string]string{})
+	table := map[string]string{}
+	srcUsed := map[string]bool{}
+	evs := []hx.Event{}
+	for i, st := range steps {
+		switch hx.S(st, "op") {
+		case "upd":
+			m, logged := entriesOf(st)
+			w.UpdateNameMappings(m)
+			for k, v := range m {
+				table[k] = v
+			}
+			evs = append(evs, hx.Event{"op": "upd", "entries": logged})
+		case "hmap":
+			kind, sdb, coll := hx.S(st, "kind"), hx.S(st, "sdb"), hx.S(st, "coll")
+			srcUsed[norm(sdb)] = true
+			ok, state, calls := doOp(ctx, f, w, kind, sdb, coll, false, T+uint64(10*(i+1)))
+			evs = append(evs, hx.Event{"op": "hmap", "kind": kind, "sdb": sdb, "coll": coll, "fail": false, "ok": ok, "state": state, "calls": calls})
+		default:
+			fmt.Fprintln(os.Stderr, "unknown history step", st)
+			os.Exit(3)
+		}
+	}
+	// alias: databases that only exist as mapping targets (never the source database of an operation of this history)
+	// must be unknown to the bookkeeping: a query for them probes
+	tdbs := map[string]bool{}
+	for _, tgt := range table {
+		d, _ := util.GetCollectionNameFromFull(tgt)
+		tdbs[d] = true
+	}
+	names := make([]string, 0, len(tdbs))
+	for d := range tdbs {
+		names = append(names, d)
+	}
+	sort.Strings(names)
+	ts := T + uint64(10*(len(steps)+1))
+	alias := []map[string]interface{}{}
+	for _, d := range names {
+		if srcUsed[d] || d == "default" {
+			continue
+		}
+		q := func(what string, fn func()) {
+			fn()
+			alias = append(alias, map[string]interface{}{"q": what, "db": d, "probed": probed(f.Take())})
+		}
+		q("db", func() { w.WaitDatabaseReady(ctx, d, ts, "") })
+		q("coll-c1", func() { w.WaitCollectionReady(ctx, "c1", d, ts) })
+		q("coll-c2", func() { w.WaitCollectionReady(ctx, "c2", d, ts) })
+		q("part-c1", func() { w.WaitPartitionReady(ctx, "c1", P1, d, ts) })
+		q("part-c2", func() { w.WaitPartitionReady(ctx, "c2", P1, d, ts) })
+	}
+	evs = append(evs, hx.Event{"op": "end", "alias": alias})
+	return evs
+}
+
+// multiEntry: does the table, at some point of the history, hold more than one entry for one source database?
+func multiEntry(steps []map[string]interface{}) bool {
+	table := map[string]string{}
+	for _, st := range steps {
+		if hx.S(st, "op") != "upd" {
+			continue
+		}
+		m, _ := entriesOf(st)
+		for k, v := range m {
+			table[k] = v
+		}
+		n := map[string]int{}
+		for k := range table {
+			d, _ := util.GetCollectionNameFromFull(k)
+			n[d]++
+			if n[d] > 1 {
+				return true
+			}
+		}
+	}
+	return false
+}
+
+func runHist(p *hx.Plan) []hx.Event {
+	reps := 1
+	if multiEntry(p.Steps) {
+		reps = 8
+	}
+	evs := []hx.Event{}
+	seen := map[string]bool{}
+	for i := 0; i < reps; i++ {
+		one := histOnce(p.Steps)
+		b, _ := json.Marshal(one)
+		if seen[string(b)] {
+			continue
+		}
+		seen[string(b)] = true
+		if len(evs) > 0 {
+			evs = append(evs, hx.Event{"op": "reset"})
+		}
+		evs = append(evs, one...)
+	}
+	return evs
+}
+
 func run(p *hx.Plan) []hx.Event {
+	for _, st := range p.Steps {
+		if hx.S(st, "op") != "map" {
+			return runHist(p)
+		}
+	}
 	evs := []hx.Event{}
 	for _, st := range p.Steps {
 		kind, sdb, shape, fail := hx.S(st, "kind"), hx.S(st, "sdb"), hx.S(st, "shape"), hx.B(st, "fail")
